@@ -1,4 +1,4 @@
-import JsonPathVerif.Order
+import JsonPathVerif.OrderSM
 /-! # C02 – results are in RFC 9535 document order, duplicates preserved
 
 Full statement, refutation on the model (replayed on the crate by the check: known finding
@@ -40,6 +40,32 @@ theorem C02_partial (E : Engine) (q : List Segment) (d : Json) (hq : okSegs q) (
   congr 1
   have := congrArg (List.map (·.1)) h2
   simpa [List.map_map, Function.comp_def, toN] using this
+
+/-- exact content of the deviation: for EVERY well-formed query the result is, as a list, the RFC nodelist with multi-selector
+segments concatenated selector-major (`Spec.querySM`) -/
+theorem C02_characterised (E : Engine) (q : List Segment) (d : Json) (hq : okSegs q) :
+    locsOf (jsPathProcess E q d) = some ((Spec.querySM E q d).map (·.1)) := by
+  obtain ⟨ps, h1, h2⟩ := query_characterised E d q hq
+  simp only [locsOf, h1]
+  congr 1
+  have := congrArg (List.map (·.1)) h2
+  simpa [List.map_map, Function.comp_def, toN] using this
+
+/-- sharp partial form: RFC order whenever no multi-selector segment receives two or more nodes; the hypothesis is the
+Boolean class `KF.multiSelOnMulti` that the check evaluates on every generated case (known finding KF-union-order) -/
+theorem C02_partial_sharp (E : Engine) (q : List Segment) (d : Json) (hq : okSegs q)
+    (hm : KF.multiSelOnMulti E d q [([], d)] = false) :
+    locsOf (jsPathProcess E q d) = some ((Spec.query E q d).map (·.1)) := by
+  obtain ⟨ps, h1, h2⟩ := query_ordered_sharp E d q hq hm
+  simp only [locsOf, h1]
+  congr 1
+  have := congrArg (List.map (·.1)) h2
+  simpa [List.map_map, Function.comp_def, toN] using this
+
+/-- non-vacuity of the sharp form: `$[0][0,1]` has a union but it receives one node -/
+example : KF.multiSelOnMulti E0 witnessDoc [.selector (.index 0), .selectors [.index 0, .index 1]] [([], witnessDoc)] = false := by decide
+/-- and the refuting witness is inside the class -/
+example : KF.multiSelOnMulti E0 witnessDoc witnessQuery [([], witnessDoc)] = true := by decide
 
 /-- non-vacuity: a query with a descendant segment, a filter and duplicates satisfies the hypotheses -/
 example : okSegs [.descendant (.selector (.name "a".toList)), .selector (.filter (.atom (.test (.rel [.selector .wildcard]) false)))]
